@@ -375,9 +375,12 @@ fn cfg_for(subj: Subj, prof: &Prof, big: bool) -> BoxedStrategy<Cfg> {
                 })
                 .boxed()
         }
-        Subj::JA | Subj::TJA => vec(plan(PlanCtx { p_ready: 40, ..pc_f }), if big { 0usize..140 } else { 0usize..12 })
-            .prop_map(|initial| Cfg {
-                ctor: 2,
+        Subj::JA | Subj::TJA => (
+            vec(plan(PlanCtx { p_ready: 40, ..pc_f }), if big { 0usize..140 } else { 0usize..12 }),
+            prop_oneof![2 => Just(2u8), 1 => Just(3u8)],
+        )
+            .prop_map(|(initial, ctor)| Cfg {
+                ctor,
                 initial,
                 ..Cfg::default()
             })
